@@ -1,0 +1,95 @@
+//go:build verif
+
+// Verification hooks. This file only exists for the compiler when the build tag "verif" is set.
+// It adds constructors that build the clients on a caller-supplied knxnet.Socket (so that a
+// monitor can be the wire) and one read-only accessor. It changes no existing line.
+
+package knx
+
+import (
+	"container/list"
+
+	"github.com/vapourismo/knx-go/knx/cemi"
+	"github.com/vapourismo/knx-go/knx/knxnet"
+)
+
+// NewTunnelOnSocket is NewTunnel after the dial, on the given socket.
+func NewTunnelOnSocket(
+	sock knxnet.Socket,
+	layer knxnet.TunnelLayer,
+	config TunnelConfig,
+) (*Tunnel, error) {
+	client := &Tunnel{
+		sock:    sock,
+		config:  checkTunnelConfig(config),
+		layer:   layer,
+		ack:     make(chan *knxnet.TunnelRes),
+		inbound: make(chan cemi.Message),
+		done:    make(chan struct{}),
+	}
+
+	err := client.requestConn()
+	if err != nil {
+		sock.Close()
+		return nil, err
+	}
+
+	client.wait.Add(1)
+	go client.serve()
+
+	return client, nil
+}
+
+// NewGroupTunnelOnSocket is NewGroupTunnel on the given socket.
+func NewGroupTunnelOnSocket(sock knxnet.Socket, config TunnelConfig) (gt GroupTunnel, err error) {
+	gt.Tunnel, err = NewTunnelOnSocket(sock, knxnet.TunnelLayerData, config)
+
+	if err == nil {
+		gt.inbound = make(chan GroupEvent)
+		go serveGroupInbound(gt.Tunnel.Inbound(), gt.inbound)
+	}
+
+	return
+}
+
+// NewRouterOnSocket is NewRouter after the listen, on the given socket.
+func NewRouterOnSocket(sock knxnet.Socket, config RouterConfig) (*Router, error) {
+	config = checkRouterConfig(config)
+
+	r := &Router{
+		sock:          sock,
+		config:        config,
+		inbound:       make(chan cemi.Message),
+		retainer:      list.New(),
+		postSendPause: config.PostSendPauseDuration,
+	}
+
+	go r.serve()
+
+	return r, nil
+}
+
+// NewGroupRouterOnSocket is NewGroupRouter on the given socket.
+func NewGroupRouterOnSocket(sock knxnet.Socket, config RouterConfig) (gr GroupRouter, err error) {
+	gr.Router, err = NewRouterOnSocket(sock, config)
+
+	if err == nil {
+		gr.inbound = make(chan GroupEvent)
+		go serveGroupInbound(gr.Router.Inbound(), gr.inbound)
+	}
+
+	return
+}
+
+// VerifRetained returns a copy of the messages currently retained for resending.
+func (router *Router) VerifRetained() []cemi.Message {
+	router.sendMu.Lock()
+	defer router.sendMu.Unlock()
+
+	out := make([]cemi.Message, 0, router.retainer.Len())
+	for e := router.retainer.Front(); e != nil; e = e.Next() {
+		out = append(out, e.Value.(cemi.Message))
+	}
+
+	return out
+}
